@@ -8,7 +8,7 @@ import stat
 
 from checks import histcommon as hc
 from pydra.compose import shell
-from simlib import lockstep, workload
+from simlib import lockstep, workload, workload2
 from simlib.driver import blank_result, violation
 
 PROP = "C13"
@@ -17,7 +17,7 @@ ENGINE = "histsim"
 RULE = (
     "case = Chooser-generated history of 3-7 submissions into one cache root over a pool of identities: python task "
     "that raises (always / on its first attempt only), shell command exiting non-zero or killed by a signal (always / first attempt only), "
-    "python task returning a dict that lacks a declared output, workflow with a failing middle node, and succeeding "
+    "python task returning a dict that lacks a declared output, workflow with a failing middle node, workflow with two independent nodes failing on their first attempt (submitted with max_concurrent unlimited/1/2), and succeeding "
     "variants; worker per submission: sequential debug worker or simulated process pool (seeded schedule).  Reference "
     "model: store of identities with a complete successful result + value model + per-attempt failure plan.  "
     "Non-trivial = some identity was submitted again after it had failed; distinct = distinct history digest."
@@ -30,7 +30,7 @@ ASSUMPTIONS = [
     "a python function returning None for declared outputs is 'provides None' (pinned by the suite's test_result_none_2), not a violation",
     "the failure text that must be recorded is the exception message of the body / the failing command line",
 ]
-PROBES = ["shell_signal", "resubmitted_after_failure", "transient_then_success", "shell_nonzero", "partial_dict", "workflow_failure", "cf_submission"]
+PROBES = ["limited_concurrency", "shell_signal", "resubmitted_after_failure", "transient_then_success", "shell_nonzero", "partial_dict", "workflow_failure", "cf_submission"]
 N = {"quick": 300, "thorough": 6000}
 
 
@@ -88,6 +88,10 @@ def run_case(case, ch, workdir):
     plan[workload._key("Planned", 3, "always")] = "raise"
     pool["wf-once"] = (lambda: workload.WfPlanned(x=2, tag="once"), "once", {"out": (2 + 2) * 3 + 5}, "Planned")
     plan[workload._key("Planned", 4, "once")] = "raise_once"
+    # two independent nodes that both fail on their first attempt, under a concurrency limit
+    pool["wf2-once"] = (lambda: workload2.WfTwoPlanned(x=6, tag="once"), "multi", {"out": 18 * 21}, "Planned")
+    plan[workload._key("Planned", 6, "once")] = "raise_once"
+    plan[workload._key("Planned", 7, "once")] = "raise_once"
     pool["wf-ok"] = (lambda: workload.WfPlanned(x=5, tag="ok"), "never", {"out": (5 + 2) * 3 + 5}, None)
     with open(plan_path, "w") as f:
         json.dump(plan, f)
@@ -113,7 +117,55 @@ def run_case(case, ch, workdir):
             n_before = tried.get(name, 0)
             will_fail = will_exec and (mode == "always" or (mode == "once" and n_before == 0))
             task = factory()
-            status, val, events, extra = hc.submit(ch, workdir, task, cache, worker=worker, env=env, salt=f"{case['id']}-{op}")
+            kw = {}
+            if name.startswith("wf"):
+                mc = ch.pick([None, None, 1, 2], "max_concurrent")
+                if mc is not None:
+                    kw["max_concurrent"] = mc
+                    res["probes"]["limited_concurrency"] = 1
+            status, val, events, extra = hc.submit(ch, workdir, task, cache, worker=worker, env=env, salt=f"{case['id']}-{op}", **kw)
+            if mode == "multi":
+                # several failing-once bodies: which of them run in one submission depends on the
+                # worker (the sequential one stops at the first failure), so the model only says:
+                # a failing submission executed at least one body itself (it did not just serve a
+                # stored failure), nothing runs twice, nothing stored as successful runs again,
+                # and a successful submission returns the value model's output
+                ent = {}
+                for _n, d in events:
+                    if d[0] == "enter" and d[1].startswith("Planned|"):
+                        ent[d[1]] = ent.get(d[1], 0) + 1
+                history.append(f"{name}/{worker}/mc={kw.get('max_concurrent')}:{status}")
+                hsh.update(repr((name, worker, status, sorted(ent.items()))).encode())
+                ctx = f"op {op} of history {history}"
+                done_nodes = tried.setdefault(name, set())
+                if status == "hang":
+                    violation(res, "no-termination", "wf2-once", f"{val}; {ctx}")
+                    break
+                if any(n > 1 for n in ent.values()):
+                    violation(res, "exec-count", "wf2-once", f"a node executed twice in one submission: {ent}; {ctx}")
+                if any(k in done_nodes for k in ent):
+                    violation(res, "exec-count", "wf2-once", f"a node with a stored successful result was executed again: {ent}, stored {sorted(done_nodes)}; {ctx}")
+                if status == "ok":
+                    if name in store and ent:
+                        violation(res, "exec-count", "wf2-once", f"workflow result cached but nodes executed {ent}; {ctx}")
+                    for k, v in exp.items():
+                        if val.get(k) != v:
+                            violation(res, "wrong-output", "wf2-once", f"output {k}={val.get(k)!r}, value model says {v!r}; {ctx}")
+                    store.add(name)
+                else:
+                    res["probes"]["workflow_failure"] = 1
+                    res["faults"]["body_failure"] = res["faults"].get("body_failure", 0) + 1
+                    if name in store:
+                        violation(res, "spurious-failure", "wf2-once", f"workflow result is cached but the submission raised {val['type']}: {val['msg'][:200]}; {ctx}")
+                    elif not ent:
+                        violation(res, "not-re-executed", "wf2-once", f"the submission failed ({val['type']}: {val['msg'][:200]}) without executing any node: it served a failure stored by an earlier submission; {ctx}")
+                    if done_nodes or any(h.startswith(name) for h in history[:-1]):
+                        res["probes"]["resubmitted_after_failure"] = res["probes"].get("resubmitted_after_failure", 0) + 1
+                # nodes whose body exited normally in this submission now have a stored result
+                for _n, d in events:
+                    if d[0] == "exit" and d[1].startswith("Planned|"):
+                        done_nodes.add(d[1])
+                continue
             steps += extra.get("steps", 0)
             sim_s += extra.get("sim_s", 0.0)
             if worker == "cf":
